@@ -106,7 +106,7 @@ func C08_Iterators() {
 		end = []byte{}
 	}
 	asc := vChoice("asc", 2) == 0
-	switch vChoice("kind", 6) {
+	switch vChoice("kind", 5) {
 	case 0: // iterator of the working state (index + uncommitted changes, or tree walk)
 		it, err := h.tree.Iterator(start, end, asc)
 		vAssert(err == nil, "c08:mutable-iterator-err")
@@ -130,7 +130,7 @@ func C08_Iterators() {
 		it := NewIterator(start, end, asc, h.tree.ImmutableTree)
 		c08Drain(it, h, h.work, c08Expected(h.work, n, si, ei, asc, false), "c08:treewalk")
 		vCover("treewalk-iterator")
-	case 4, 5: // callbacks with a stop point
+	case 4: // callbacks with a stop point
 		inclusive := false
 		want := c08Expected(h.work, n, si, ei, asc, false)
 		stopAt := vChoice("stop", len(want)+1) // == len(want): never stop
@@ -143,8 +143,21 @@ func C08_Iterators() {
 			pos++
 			return pos-1 == stopAt
 		}
-		if vChoice("cbkind", 2) == 0 {
+		cbkind := vChoice("cbkind", 3)
+		if cbkind == 0 {
 			stopped = h.tree.IterateRange(start, end, asc, cb)
+		} else if cbkind == 2 {
+			// the inclusive variant on the working state (uncommitted leaves have no node key yet)
+			inclusive = true
+			want = c08Expected(h.work, n, si, ei, asc, inclusive)
+			stopAt = vChoice("stop3", len(want)+1)
+			stopped = h.tree.IterateRangeInclusive(start, end, asc, func(key, value []byte, version int64) bool {
+				vAssert(pos < len(want), "c08:callback-incl-working-extra")
+				vAssert(vEqBytes(key, h.p.keys[want[pos]]), "c08:callback-incl-working-key")
+				vAssert(vEqBytes(value, h.work.vals[want[pos]]), "c08:callback-incl-working-value")
+				pos++
+				return pos-1 == stopAt
+			})
 		} else {
 			// the inclusive variant reports the node version as well: use the committed latest version
 			imm, err := h.tree.GetImmutable(h.latest)
